@@ -243,12 +243,212 @@ Theorem decimal_pp_refuted :
   exists prec scale neg ip fp, in_domain (VDecimal prec scale neg ip fp) = true /\ model_enc (VDecimal prec scale neg ip fp) = None.
 Proof. exists 5, 5, false, 0, 12345. split; vm_compute; reflexivity. Qed.
 
-(* NEWDECIMAL round trip on the boundary shapes (executed; the general theorem is not proved) *)
-Example decimal_examples :
-  forallb (fun v => match model_enc v with Some b => decodes_to v b | None => false end)
-    [VDecimal 10 2 true 12345678 90; VDecimal 65 30 false (10 ^ 35 - 1) (10 ^ 30 - 1); VDecimal 65 30 true 1 1;
-     VDecimal 18 9 false 999999999 999999999; VDecimal 19 9 true 1000000000 0; VDecimal 1 0 false 9 0; VDecimal 38 0 true (10 ^ 38 - 1) 0] = true.
+(* ---- NEWDECIMAL: decode (encode v) = v for every precision, scale and value ---- *)
+Lemma to_base_bound B k n : 0 < B -> Forall (fun d => d < B) (to_base B k n).
+Proof.
+  intros HB. revert n. induction k as [|k IH]; intros n; [constructor|].
+  cbn [to_base]. apply Forall_app. split; [apply IH|]. constructor; [|constructor]. apply N.mod_lt. lia.
+Qed.
+
+Lemma to_base_head B k n : 0 < B -> exists t, to_base B (S k) n = ((n / B ^ N.of_nat k) mod B) :: t.
+Proof.
+  intros HB. revert n. induction k as [|k IH]; intros n.
+  - exists []. cbn. rewrite N.div_1_r. reflexivity.
+  - destruct (IH (n / B)) as [t Ht]. exists (t ++ [n mod B]).
+    change (to_base B (S (S k)) n) with (to_base B (S k) (n / B) ++ [n mod B]). rewrite Ht. cbn [app].
+    rewrite N.div_div by (try apply N.pow_nonzero; lia).
+    rewrite Nat2N.inj_succ, N.pow_succ_r'. reflexivity.
+Qed.
+
+Lemma be_head_small k n : n * 2 < pow256 (S k) -> exists b t, be_bytes (S k) n = b :: t /\ b < 128.
+Proof.
+  intros H. destruct (to_base_head 256 k n ltac:(lia)) as [t Ht]. unfold be_bytes. rewrite Ht.
+  eexists; eexists; split; [reflexivity|].
+  unfold pow256 in H. rewrite Nat2N.inj_succ, N.pow_succ_r' in H.
+  assert (Hp : 0 < 256 ^ N.of_nat k) by (apply N.neq_0_lt_0; apply N.pow_nonzero; lia).
+  assert (Hd : n / 256 ^ N.of_nat k < 128) by (apply N.div_lt_upper_bound; lia).
+  rewrite N.mod_small by lia. exact Hd.
+Qed.
+
+Lemma flat_be4_length l : length (flat_map (be_bytes 4) l) = (4 * length l)%nat.
+Proof. induction l as [|g l IH]; [reflexivity|]. cbn [flat_map]. rewrite app_length, be_length, IH. cbn [length]. lia. Qed.
+
+Lemma chunks4_flat gs : Forall (fun g => g < pow256 4) gs -> chunks4 (length gs) (flat_map (be_bytes 4) gs) = gs.
+Proof.
+  induction gs as [|g gs IH]; intros H; [reflexivity|]. inversion H as [|? ? Hg Hgs]; subst.
+  cbn [length chunks4 flat_map].
+  rewrite (firstn_app_exact _ _ 4 (be_length 4 g)), (skipn_app_exact _ _ 4 (be_length 4 g)).
+  rewrite be_roundtrip by exact Hg. rewrite IH by exact Hgs. reflexivity.
+Qed.
+
+Lemma B9_lt_pow256_4 : B9 < pow256 4.
+Proof. reflexivity. Qed.
+
+Lemma groups_roundtrip k m : m < B9 ^ N.of_nat k ->
+  of_base B9 (chunks4 k (flat_map (be_bytes 4) (to_base B9 k m))) = m.
+Proof.
+  intros H. pose proof (to_base_bound B9 k m ltac:(reflexivity)) as Hb.
+  pose proof (to_base_length B9 k m) as Hl.
+  rewrite <- Hl at 1. rewrite chunks4_flat.
+  - apply of_to_base; [reflexivity|exact H].
+  - eapply Forall_impl; [|exact Hb]. intros g Hg. cbv beta in Hg. pose proof B9_lt_pow256_4. lia.
+Qed.
+
+Lemma pow10_9 k : pow10 (9 * k) = B9 ^ k.
+Proof. unfold pow10. rewrite N.pow_mul_r. reflexivity. Qed.
+
+Lemma pow10_add a b : pow10 (a + b) = pow10 a * pow10 b.
+Proof. unfold pow10. apply N.pow_add_r. Qed.
+
+Lemma pow10_pos k : 0 < pow10 k.
+Proof. unfold pow10. apply N.neq_0_lt_0. apply N.pow_nonzero. lia. Qed.
+
+(* the leftover group (0..8 digits) fits its dig2bytes bytes with the top bit clear *)
+Lemma dig_sweep :
+  forallb (fun n => let d := N.of_nat n in
+                    (pow10 d <=? pow256 (dig2bytes d))
+                    && ((d =? 0) || ((pow10 d * 2 <=? pow256 (dig2bytes d)) && (1 <=? dig2bytes d)%nat))) (seq 0 9) = true.
 Proof. vm_compute. reflexivity. Qed.
+
+Lemma dig_facts d : d < 9 ->
+  pow10 d <= pow256 (dig2bytes d) /\ (0 < d -> pow10 d * 2 <= pow256 (dig2bytes d) /\ exists k, dig2bytes d = S k).
+Proof.
+  intros Hd. pose proof dig_sweep as S. rewrite forallb_forall in S.
+  specialize (S (N.to_nat d)). cbv zeta in S. rewrite N2Nat.id in S.
+  assert (Hin : In (N.to_nat d) (seq 0 9)) by (apply in_seq; lia).
+  specialize (S Hin). apply andb_true_iff in S as [S1 S2]. apply N.leb_le in S1. split; [exact S1|].
+  intros Hpos. apply orb_true_iff in S2 as [S2|S2]; [apply N.eqb_eq in S2; lia|].
+  apply andb_true_iff in S2 as [S2 S3]. apply N.leb_le in S2. apply Nat.leb_le in S3. split; [exact S2|].
+  destruct (dig2bytes d); [lia|eexists; reflexivity].
+Qed.
+
+Section DecimalShape.
+  Variables prec scale : N.
+  Let intg := prec - scale.
+  Let intg0 := intg / 9.
+  Let frac0 := scale / 9.
+  Let intg0x := intg - intg0 * 9.
+  Let frac0x := scale - frac0 * 9.
+
+  Lemma shape_facts : scale <= prec ->
+    intg0x < 9 /\ frac0x < 9 /\ intg = 9 * intg0 + intg0x /\ scale = 9 * frac0 + frac0x.
+  Proof. intros H. unfold intg0x, frac0x, intg0, frac0. pose proof (N.div_mod intg 9 ltac:(lia)). pose proof (N.div_mod scale 9 ltac:(lia)).
+         pose proof (N.mod_lt intg 9 ltac:(lia)). pose proof (N.mod_lt scale 9 ltac:(lia)). lia. Qed.
+
+  Lemma raw_length ip fp : length (enc_decimal_raw prec scale ip fp) = decimal_len prec scale.
+  Proof.
+    unfold enc_decimal_raw, decimal_len. rewrite !app_length, !be_length, !flat_be4_length, !to_base_length. lia.
+  Qed.
+
+  Lemma raw_roundtrip ip fp :
+    scale <= prec -> ip < pow10 (prec - scale) -> fp < pow10 scale ->
+    dec_decimal_raw prec scale (enc_decimal_raw prec scale ip fp) = (ip, fp).
+  Proof.
+    intros Hs Hip Hfp. destruct (shape_facts Hs) as [Hx [Hy [Ei Ef]]].
+    unfold dec_decimal_raw, enc_decimal_raw. fold intg intg0 frac0 intg0x frac0x.
+    set (c1 := be_bytes (dig2bytes intg0x) (ip / pow10 (9 * intg0))).
+    set (g2 := to_base B9 (N.to_nat intg0) (ip mod pow10 (9 * intg0))).
+    set (g3 := to_base B9 (N.to_nat frac0) (fp / pow10 frac0x)).
+    set (c4 := be_bytes (dig2bytes frac0x) (fp mod pow10 frac0x)).
+    assert (L1 : length c1 = dig2bytes intg0x) by apply be_length.
+    assert (L2 : length (flat_map (be_bytes 4) g2) = (4 * N.to_nat intg0)%nat)
+      by (rewrite flat_be4_length; unfold g2; rewrite to_base_length; reflexivity).
+    assert (L3 : length (flat_map (be_bytes 4) g3) = (4 * N.to_nat frac0)%nat)
+      by (rewrite flat_be4_length; unfold g3; rewrite to_base_length; reflexivity).
+    rewrite (firstn_app_exact _ _ _ L1), (skipn_app_exact _ _ _ L1).
+    rewrite (firstn_app_exact _ _ _ L2), (skipn_app_exact _ _ _ L2).
+    rewrite (firstn_app_exact _ _ _ L3), (skipn_app_exact _ _ _ L3).
+    pose proof (pow10_pos (9 * intg0)) as P1. pose proof (pow10_pos frac0x) as P2.
+    (* integer part *)
+    assert (Hip' : ip < pow10 (9 * intg0) * pow10 intg0x).
+    { rewrite <- pow10_add. fold intg in Hip. rewrite Ei in Hip. exact Hip. }
+    assert (H1 : be_val c1 = ip / pow10 (9 * intg0)).
+    { unfold c1. apply be_roundtrip. destruct (dig_facts intg0x Hx) as [D _].
+      eapply N.lt_le_trans; [|exact D]. apply N.div_lt_upper_bound; lia. }
+    assert (H2 : of_base B9 (chunks4 (N.to_nat intg0) (flat_map (be_bytes 4) g2)) = ip mod pow10 (9 * intg0)).
+    { unfold g2. apply groups_roundtrip. rewrite N2Nat.id, <- pow10_9. apply N.mod_lt. lia. }
+    (* fractional part *)
+    assert (Hfp' : fp < pow10 frac0x * pow10 (9 * frac0)).
+    { rewrite <- pow10_add. rewrite Ef in Hfp. rewrite N.add_comm. exact Hfp. }
+    assert (H3 : of_base B9 (chunks4 (N.to_nat frac0) (flat_map (be_bytes 4) g3)) = fp / pow10 frac0x).
+    { unfold g3. apply groups_roundtrip. rewrite N2Nat.id, <- pow10_9. apply N.div_lt_upper_bound; lia. }
+    assert (H4 : be_val c4 = fp mod pow10 frac0x).
+    { unfold c4. apply be_roundtrip. destruct (dig_facts frac0x Hy) as [D _].
+      eapply N.lt_le_trans; [|exact D]. apply N.mod_lt. lia. }
+    rewrite H1, H2, H3, H4.
+    pose proof (N.div_mod ip (pow10 (9 * intg0)) ltac:(lia)) as Q1.
+    pose proof (N.div_mod fp (pow10 frac0x) ltac:(lia)) as Q2.
+    f_equal; lia.
+  Qed.
+
+  (* the first emitted byte has its top bit clear (the sign lives there) *)
+  Lemma raw_head ip fp :
+    scale <= prec -> prec <> scale -> ip < pow10 (prec - scale) ->
+    exists b0 r, enc_decimal_raw prec scale ip fp = b0 :: r /\ b0 < 128.
+  Proof.
+    intros Hs Hne Hip. destruct (shape_facts Hs) as [Hx [Hy [Ei Ef]]].
+    unfold enc_decimal_raw. fold intg intg0 frac0 intg0x frac0x.
+    pose proof (pow10_pos (9 * intg0)) as P1.
+    assert (Hip' : ip < pow10 (9 * intg0) * pow10 intg0x).
+    { rewrite <- pow10_add. fold intg in Hip. rewrite Ei in Hip. exact Hip. }
+    destruct (N.eq_dec intg0x 0) as [Hz|Hz].
+    - (* no leftover digits: the first byte is the top byte of the first full group *)
+      assert (Hi0 : 0 < intg0) by (unfold intg in *; lia).
+      rewrite Hz. change (be_bytes (dig2bytes 0) (ip / pow10 (9 * intg0))) with (@nil N). cbn [app].
+      destruct (N.to_nat intg0) as [|k] eqn:Ek; [lia|].
+      destruct (to_base_head B9 k (ip mod pow10 (9 * intg0)) ltac:(reflexivity)) as [t Ht]. rewrite Ht.
+      cbn [flat_map app].
+      set (g := (ip mod pow10 (9 * intg0) / B9 ^ N.of_nat k) mod B9).
+      assert (Hg : g < B9) by (apply N.mod_lt; discriminate).
+      destruct (be_head_small 3 g) as [b [t' [Eb Hb]]]; [change (pow256 4) with 4294967296; unfold B9 in Hg; lia|].
+      rewrite Eb. cbn [app]. eexists; eexists; split; [reflexivity|exact Hb].
+    - destruct (dig_facts intg0x Hx) as [_ D]. destruct (D ltac:(lia)) as [D2 [k Ek]].
+      rewrite Ek.
+      destruct (be_head_small k (ip / pow10 (9 * intg0))) as [b [t' [Eb Hb]]].
+      + rewrite <- Ek. eapply N.lt_le_trans; [|exact D2].
+        assert (ip / pow10 (9 * intg0) < pow10 intg0x) by (apply N.div_lt_upper_bound; lia). lia.
+      + rewrite Eb. cbn [app]. eexists; eexists; split; [reflexivity|exact Hb].
+  Qed.
+End DecimalShape.
+
+Lemma lxor255_invol x : N.lxor (N.lxor x 255) 255 = x.
+Proof. rewrite N.lxor_assoc, N.lxor_nilpotent, N.lxor_0_r. reflexivity. Qed.
+Lemma lxor128_invol x : N.lxor (N.lxor x 128) 128 = x.
+Proof. rewrite N.lxor_assoc, N.lxor_nilpotent, N.lxor_0_r. reflexivity. Qed.
+Lemma map_lxor255_invol l : map (fun x => N.lxor x 255) (map (fun x => N.lxor x 255) l) = l.
+Proof. induction l as [|x l IH]; [reflexivity|]. cbn [map]. rewrite lxor255_invol, IH. reflexivity. Qed.
+
+Lemma testbit7_small b : b < 128 -> N.testbit b 7 = false.
+Proof.
+  intros H. destruct (N.eq_dec b 0) as [->|Hz]; [reflexivity|].
+  apply N.bits_above_log2. apply N.log2_lt_pow2; [lia|]. exact H.
+Qed.
+
+(* full statement: for every DECIMAL(precision, scale) with an integer part (precision > scale — the
+   precision = scale class is the finding decimal_pp_refuted) and every value of the column. *)
+Theorem decimal_roundtrip prec scale neg ip fp :
+  in_domain (VDecimal prec scale neg ip fp) = true -> prec <> scale ->
+  exists b, enc_decimal prec scale neg ip fp = Some b /\ decodes_to (VDecimal prec scale neg ip fp) b = true.
+Proof.
+  cbn [in_domain decodes_to]. intros H Hne. repeat (apply andb_true_iff in H as [H ?]).
+  repeat match goal with X : (_ <=? _) = true |- _ => apply N.leb_le in X end.
+  repeat match goal with X : (_ <? _) = true |- _ => apply N.ltb_lt in X end.
+  assert (Hs : scale <= prec) by assumption.
+  destruct (raw_head prec scale ip fp Hs Hne ltac:(assumption)) as [b0 [r [Eraw Hb0]]].
+  pose proof (raw_length prec scale ip fp) as Hlen.
+  pose proof (raw_roundtrip prec scale ip fp Hs ltac:(assumption) ltac:(assumption)) as Hrt.
+  unfold enc_decimal. assert (E0 : (prec - scale =? 0) = false) by (apply N.eqb_neq; lia). rewrite E0, Eraw.
+  rewrite Eraw in Hlen, Hrt.
+  assert (T0 : N.testbit b0 7 = false) by (apply testbit7_small; exact Hb0).
+  assert (T1 : N.testbit (N.lxor b0 128) 7 = true) by (rewrite N.lxor_spec, T0; reflexivity).
+  assert (T2 : N.testbit (N.lxor (N.lxor b0 128) 255) 7 = false) by (rewrite N.lxor_spec, T1; reflexivity).
+  destruct neg.
+  - eexists. split; [reflexivity|]. unfold dec_decimal. cbn [map length] in *. rewrite map_length, Hlen, Nat.eqb_refl. cbn [negb].
+    rewrite T2. cbn [negb map]. rewrite lxor255_invol, map_lxor255_invol, lxor128_invol, Hrt.
+    rewrite !N.eqb_refl. reflexivity.
+  - eexists. split; [reflexivity|]. unfold dec_decimal. cbn [length] in *. rewrite Hlen, Nat.eqb_refl. cbn [negb].
+    rewrite T1. cbn [negb]. rewrite lxor128_invol, Hrt. rewrite !N.eqb_refl. reflexivity.
+Qed.
 
 (* ---- length-prefixed strings ---- *)
 Lemma beq_bytes_true s : beq_bytes s s = true.
@@ -337,4 +537,107 @@ Qed.
 
 (* the oracle holds on the model for in-domain values of the proved types (instance) *)
 Example oracle_on_model_int : oracle (VInt 3 true (-8388608)) (model_obs (VInt 3 true (-8388608))) = true.
+Proof. vm_compute. reflexivity. Qed.
+
+(* ---- FLOAT / DOUBLE ---- *)
+Theorem float_roundtrip bits : in_domain (VFloat bits) = true -> decodes_to (VFloat bits) (enc_float bits) = true.
+Proof.
+  cbn [in_domain decodes_to]. intros H. apply N.ltb_lt in H. unfold enc_float, dec_float.
+  rewrite le_length, Nat.eqb_refl. unfold opt_eqb. apply N.eqb_eq. apply le_roundtrip. exact H.
+Qed.
+Theorem double_roundtrip bits : in_domain (VDouble bits) = true -> decodes_to (VDouble bits) (enc_double bits) = true.
+Proof.
+  cbn [in_domain decodes_to]. intros H. apply N.ltb_lt in H. unfold enc_double, dec_double.
+  rewrite le_length, Nat.eqb_refl. unfold opt_eqb. apply N.eqb_eq. apply le_roundtrip. exact H.
+Qed.
+
+(* ---- JSON binary format ---- *)
+(* the variable-length string length *)
+Lemma json_len_roundtrip n rest :
+  n < 2097152 ->
+  exists lb, json_str_len n = Some lb /\ json_read_len 5 (lb ++ rest) 1 0 = Some (n, N.of_nat (length lb)) /\ (length lb <= 3)%nat.
+Proof.
+  intros Hn. unfold json_str_len.
+  assert (E0 : (2097151 <? n) = false) by (apply N.ltb_ge; lia). rewrite E0.
+  destruct (16383 <? n) eqn:E1; [apply N.ltb_lt in E1 | apply N.ltb_ge in E1].
+  - eexists. split; [reflexivity|]. split; [|cbn; lia]. cbn [app json_read_len length].
+    assert (A : (128 <=? n mod 128 + 128) = true) by (apply N.leb_le; lia). rewrite A.
+    assert (B : (128 <=? n / 128 mod 128 + 128) = true) by (apply N.leb_le; lia). rewrite B.
+    assert (C : (128 <=? n / 16384 mod 256) = false) by (apply N.leb_gt; lia). rewrite C.
+    f_equal. f_equal; lia.
+  - destruct (127 <? n) eqn:E2; [apply N.ltb_lt in E2 | apply N.ltb_ge in E2].
+    + eexists. split; [reflexivity|]. split; [|cbn; lia]. cbn [app json_read_len length].
+      assert (A : (128 <=? n mod 128 + 128) = true) by (apply N.leb_le; lia). rewrite A.
+      assert (C : (128 <=? n / 128 mod 256) = false) by (apply N.leb_gt; lia). rewrite C.
+      f_equal. f_equal; lia.
+    + eexists. split; [reflexivity|]. split; [|cbn; lia]. cbn [app json_read_len length].
+      assert (C : (128 <=? n) = false) by (apply N.leb_gt; lia). rewrite C.
+      f_equal. f_equal; lia.
+Qed.
+
+Definition jv_scalar (v : jv) : bool :=
+  match v with JArr _ | JObj _ => false | _ => true end.
+
+Lemma doc_frame t body fuel :
+  N.of_nat (S (length body)) < u32 ->
+  dec_json_doc fuel (le_bytes 4 (N.of_nat (S (length body)) mod u32) ++ t :: body) = dec_json fuel t body.
+Proof.
+  intros H. unfold dec_json_doc. rewrite app_length, le_length. cbn [length].
+  assert (L : (4 + S (length body) <? 5)%nat = false) by (apply Nat.ltb_ge; lia). rewrite L.
+  rewrite (firstn_app_exact _ _ 4 (le_length 4 _)), (skipn_app_exact _ _ 4 (le_length 4 _)).
+  rewrite N.mod_small by exact H. rewrite le_roundtrip by (unfold pow256; cbn; unfold u32 in H; lia).
+  rewrite Nat2N.id, Nat.eqb_refl. reflexivity.
+Qed.
+
+(* full statement: for every document of the domain (jv_ok 60), decode (encode doc) = doc.
+   FALSE as stated: json_key256_refuted, json_underflow_refuted below.
+   Proved here: every scalar document (null / true / false / every float64 / every string below 2^21 bytes).
+   Missing: the general theorem for arrays and objects (nested offsets) outside the two refuted classes — they are
+   covered by execution (json_examples) and by the correspondence run with both decoders. *)
+Theorem json_scalar_roundtrip_partial v :
+  in_domain (VJson v) = true -> jv_scalar v = true ->
+  exists b, enc_json_doc v = Some b /\ decodes_to (VJson v) b = true.
+Proof.
+  cbn [in_domain decodes_to]. intros H Hs. unfold enc_json_doc.
+  destruct v as [| | |bits|s|l|l]; try discriminate Hs; cbn [jv_ok] in H.
+  - eexists. split; [reflexivity|]. vm_compute. reflexivity.
+  - eexists. split; [reflexivity|]. vm_compute. reflexivity.
+  - eexists. split; [reflexivity|]. vm_compute. reflexivity.
+  - apply N.ltb_lt in H. cbn [enc_json]. eexists. split; [reflexivity|].
+    rewrite doc_frame by (rewrite le_length; reflexivity).
+    cbn [dec_json]. cbn [N.eqb Pos.eqb]. rewrite le_length. cbn [Nat.leb].
+    rewrite firstn_all2 by (rewrite le_length; lia).
+    rewrite le_roundtrip by (unfold pow256; cbn; lia). unfold opt_eqb. cbn [jv_eqb]. apply N.eqb_refl.
+  - unfold str_ok in H. apply andb_true_iff in H as [Hl _]. apply N.ltb_lt in Hl. cbn [enc_json].
+    destruct (json_len_roundtrip (N.of_nat (length s)) s Hl) as [lb [E1 [E2 E3]]]. rewrite E1.
+    eexists. split; [reflexivity|].
+    rewrite doc_frame by (rewrite app_length; unfold u32; lia).
+    cbn [dec_json]. cbn [N.eqb Pos.eqb]. rewrite E2.
+    assert (Hle : (N.to_nat (N.of_nat (length lb) + N.of_nat (length s)) <=? length (lb ++ s))%nat = true)
+      by (apply Nat.leb_le; rewrite app_length; lia).
+    rewrite Hle. unfold sub. rewrite !Nat2N.id, (skipn_app_exact _ _ _ eq_refl), firstn_all.
+    unfold opt_eqb. cbn [jv_eqb]. apply beq_bytes_refl.
+Qed.
+
+(* an object key of 256 bytes: the key-entry length is written as byte(len), byte(len<<8) = (0, 0); the replica reads an empty key *)
+Theorem json_key256_refuted :
+  exists v b, in_domain (VJson v) = true /\ enc_json_doc v = Some b /\ decodes_to (VJson v) b = false
+              /\ dec_json_doc 64 b = Some (JObj [([], JNull)]).
+Proof. exists (JObj [(repeat 107 256, JNull)]). eexists. repeat split; vm_compute; reflexivity. Qed.
+
+(* ["x", <70000-byte string>]: the small-format check  offset > 65535 - uint32(len)  underflows, the small format is kept
+   and its 2-byte size field is truncated; a MySQL-rules decoder rejects the document *)
+Theorem json_underflow_refuted :
+  exists v b, in_domain (VJson v) = true /\ enc_json_doc v = Some b /\ dec_json_doc 64 b = None.
+Proof. exists (JArr [JStr [120]; JStr (repeat 97 70000)]). eexists. repeat split; vm_compute; reflexivity. Qed.
+
+(* arrays / objects, small and large formats, inlined literals, nested offsets: executed *)
+Example json_examples :
+  forallb (fun v => match enc_json_doc v with Some b => decodes_to (VJson v) b | None => false end)
+    [JArr []; JObj []; JArr [JNull; JTrue; JFalse]; JArr [JNum 4607182418800017408; JStr [120]; JArr [JNum 0; JArr [JStr [121]; JObj []]]; JObj [([107], JArr [])]];
+     JObj [([97], JNum 1); ([98], JArr [JTrue; JNull; JStr [120]]); ([99], JObj [([100], JNum 2)])];
+     JObj [(repeat 107 255, JNum 1)];
+     JArr (repeat (JStr (repeat 115 400)) 170);                        (* large format: offsets beyond 65535 *)
+     JArr [JStr (repeat 97 70000); JStr [120]];                        (* large format after the small one overflows *)
+     JArr (repeat JNull 300)] = true.
 Proof. vm_compute. reflexivity. Qed.
